@@ -77,7 +77,7 @@ def norm(v):
     return v
 
 
-def num_eq(a, b, exact):
+def num_eq(a, b, exact, scale=0.0):
     if isinstance(a, float) and math.isnan(a) or isinstance(b, float) and math.isnan(b):
         return False
     if exact:
@@ -85,12 +85,12 @@ def num_eq(a, b, exact):
     if a == b:
         return True
     try:
-        return abs(a - b) <= 1e-12 * max(abs(a), abs(b))
+        return abs(a - b) <= max(1e-12 * max(abs(a), abs(b)), 1e-13 * scale)
     except OverflowError:
         return False
 
 
-def val_eq(got, exp, exact=True, err_exact=False, empty_text_is_blank=False):
+def val_eq(got, exp, exact=True, err_exact=False, empty_text_is_blank=False, scale=0.0):
     """got: normalised library value; exp: one reference outcome"""
     if exp is ANY:
         return True
@@ -110,18 +110,18 @@ def val_eq(got, exp, exact=True, err_exact=False, empty_text_is_blank=False):
     if isinstance(exp, bool) or isinstance(got, bool):
         return isinstance(exp, bool) and isinstance(got, bool) and exp == got
     if is_num(exp):
-        return is_num(got) and num_eq(got, exp, exact)
+        return is_num(got) and num_eq(got, exp, exact, scale)
     if isinstance(exp, str):
         return isinstance(got, str) and got == exp
     if isinstance(exp, dt.datetime):
         return isinstance(got, dt.datetime) and got == exp
     if isinstance(exp, list):
         return isinstance(got, list) and len(got) == len(exp) and all(
-            val_eq(g, e, exact, err_exact, empty_text_is_blank) for g, e in zip(got, exp))
+            val_eq(g, e, exact, err_exact, empty_text_is_blank, scale) for g, e in zip(got, exp))
     return got == exp
 
 
-def outcome_matches(outcome, expected, exact=True, err_exact=False, reject_ok=False, empty_text_is_blank=False):
+def outcome_matches(outcome, expected, exact=True, err_exact=False, reject_ok=False, empty_text_is_blank=False, scale=0.0):
     """outcome: pipeline.Outcome of translate+evaluate; expected: iterable of acceptable reference outcomes.
     An exception while *evaluating* counts as 'an error value' (the library models most Excel errors as
     Python exceptions).  A failure while translating/loading only matches when reject_ok."""
@@ -133,4 +133,4 @@ def outcome_matches(outcome, expected, exact=True, err_exact=False, reject_ok=Fa
             return any(e is ANY or (isinstance(e, Err) and (not err_exact or e.kind is None)) for e in expected)
         return reject_ok and outcome.kind == 'LIB_EXC'
     got = norm(outcome.value)
-    return any(val_eq(got, e, exact, err_exact, empty_text_is_blank) for e in expected)
+    return any(val_eq(got, e, exact, err_exact, empty_text_is_blank, scale) for e in expected)
